@@ -102,6 +102,30 @@ func (d *Datastore) Get(ctx context.Context, req *sdcpb.GetDataRequest, nCh chan
 	return nil
 }
 
+// pathIsRequested checks element by element if the path equals or is located below one of the requested paths.
+// Keys that a requested path element does not define match any value.
+func pathIsRequested(p *sdcpb.Path, requested []*sdcpb.Path) bool {
+NEXT_PATH:
+	for _, rp := range requested {
+		if len(rp.GetElem()) > len(p.GetElem()) {
+			continue
+		}
+		for i, re := range rp.GetElem() {
+			pe := p.GetElem()[i]
+			if re.GetName() != pe.GetName() {
+				continue NEXT_PATH
+			}
+			for k, v := range re.GetKey() {
+				if pv, exists := pe.GetKey()[k]; !exists || pv != v {
+					continue NEXT_PATH
+				}
+			}
+		}
+		return true
+	}
+	return false
+}
+
 func (d *Datastore) handleGetDataUpdatesSTRING(ctx context.Context, name string, req *sdcpb.GetDataRequest, paths [][]string, out chan *sdcpb.GetDataResponse) error {
 NEXT_STORE:
 	for _, store := range getStores(req) {
@@ -134,6 +158,11 @@ NEXT_STORE:
 					if scp.GetElem()[0].GetName() == "" {
 						continue
 					}
+				}
+				// the cache matches the requested paths as plain string prefixes, so siblings whose
+				// name or key value merely starts with the requested one are returned as well
+				if !pathIsRequested(scp, req.GetPath()) {
+					continue
 				}
 				tv, err := upd.Value()
 				if err != nil {
@@ -203,6 +232,11 @@ func (d *Datastore) handleGetDataUpdatesJSON(ctx context.Context, name string, r
 					if scp.GetElem()[0].GetName() == "" {
 						continue
 					}
+				}
+				// the cache matches the requested paths as plain string prefixes, so siblings whose
+				// name or key value merely starts with the requested one are returned as well
+				if !pathIsRequested(scp, req.GetPath()) {
+					continue
 				}
 				root.AddCacheUpdateRecursive(ctx, upd, flagsExisting)
 			}
@@ -281,6 +315,11 @@ NEXT_STORE:
 					if scp.GetElem()[0].GetName() == "" {
 						continue
 					}
+				}
+				// the cache matches the requested paths as plain string prefixes, so siblings whose
+				// name or key value merely starts with the requested one are returned as well
+				if !pathIsRequested(scp, req.GetPath()) {
+					continue
 				}
 				tv, err := upd.Value()
 				if err != nil {
